@@ -116,6 +116,7 @@ type fctx struct {
 	lemmasUsed map[string]bool
 	inputs  []string
 	ifaceSeen map[string]types.Type
+	fnDecr0 []string // the function's decreases measure at entry
 	modeNoAssigns bool
 }
 
@@ -350,6 +351,10 @@ func (c *fctx) typeFacts(term string, t types.Type, alloc string, depth int) []s
 	case *types.Basic:
 		if lo, hi, ok := IntRange(u); ok {
 			out = append(out, fmt.Sprintf("(<= %s %s)", lo, term), fmt.Sprintf("(<= %s %s)", term, hi))
+		}
+		if u.Info()&types.IsString != 0 {
+			// a Go string's length is an int (spec-level byte sequences are unbounded)
+			out = append(out, fmt.Sprintf("(<= (len %s) 9223372036854775807)", term))
 		}
 	case *types.Pointer, *types.Map, *types.Chan:
 		out = append(out, fmt.Sprintf("(>= %s 0)", term))
